@@ -112,6 +112,8 @@ PROTECTED_META = ['stopped', 'cancelled', 'complete', 'alert_done', 'waitingHand
                   '__class__', '__dict__', '__init__', '__setattr__', 'child', 'create', 'stop', 'cancel']
 CAUSE_META = ['cause', 'effects', 'complete_channels']
 FREE_META = ['remote_finish', 'errors', 'task', 'lock', 'time_left', 'x', '_private', 'node_protocol']
+# meta keys whose value must never show up on the dispatched event (the others in PROTECTED_META are legitimately set by Protocol / dispatcher)
+CHECKED_META = ['stopped', 'cancelled', 'alert_done', 'waitingHandlers', 'failed', 'parent', 'uid', 'notify', 'failure', 'node_without_result'] + CAUSE_META
 META_VALS = [True, False, 0, 1, -1, 'x', '', [], {}, None, ['node_result'], 'node', 5.5, [[1]]]
 
 
@@ -569,28 +571,32 @@ class Sim:
         return c
 
     # ------------------------------------------------------------------ observation points
-    def attr_problem(self, event):
+    def attr_problem(self, event, c):
+        """"...or overwrite the event attributes the dispatcher relies on": invariants of any dispatched event, plus, for a tracked call of
+        the raw peer, no dispatcher attribute may show the value the peer put into `meta` (unless that is the default anyway)."""
         v = event.value
         checks = (('args', type(event.args) is list), ('kwargs', type(event.kwargs) is dict), ('stopped', event.stopped is False),
-                  ('cancelled', event.cancelled is False), ('complete', event.complete is False), ('alert_done', event.alert_done is False),
-                  ('waitingHandlers', type(event.waitingHandlers) is int and event.waitingHandlers == 0), ('failed', event.failed is False),
-                  ('value', isinstance(v, Value) and v.event is event), ('handler', callable(event.handler)), ('success', event.success is True),
-                  ('success_channels', getattr(event, 'success_channels', None) == ('node_result',)), ('parent', event.parent is None),
-                  ('notify', type(event.notify) is bool), ('failure', type(event.failure) is bool),
-                  ('channels', type(event.channels) is tuple), ('name', type(event.name) is str))
+                  ('cancelled', event.cancelled is False), ('complete', type(event.complete) is bool), ('alert_done', type(event.alert_done) is bool),
+                  ('waitingHandlers', type(event.waitingHandlers) is int), ('failed', event.failed is False),
+                  ('value', isinstance(v, Value) and v.event is event), ('handler', callable(event.handler)), ('success', type(event.success) is bool),
+                  ('success_channels', type(getattr(event, 'success_channels', ())) is tuple), ('notify', type(event.notify) in (bool, str)),
+                  ('failure', type(event.failure) is bool), ('channels', type(event.channels) is tuple), ('name', type(event.name) is str))
         for name, ok in checks:
             if not ok:
                 return name
-        for k in CAUSE_META:
-            if hasattr(event, k):
-                return 'cause-effects'
+        meta = getattr(c, 'meta', None)
+        if meta:
+            fresh = Event()
+            for k in meta:
+                if k in CHECKED_META and hasattr(event, k) and J(getattr(event, k)) == J(meta[k]) and (not hasattr(fresh, k) or J(getattr(fresh, k)) != J(meta[k])):
+                    return 'cause-effects' if k in CAUSE_META else k
         return None
 
     def on_call(self, p, event, args, kwargs):
         ctx = self.ctx
         tok = args[0] if args and isinstance(args[0], str) else None
         c = self.by_tok.get(tok)
-        bad = self.attr_problem(event)
+        bad = self.attr_problem(event, c)
         if bad is not None:
             key = K_CAUSE if bad == 'cause-effects' else 'C19/hostile/dispatcher-attribute-overwritten/%s' % bad
             self.fail(key, 'event %s delivered in process %s carries a peer-controlled dispatcher attribute (%s)' % (event.name, p.tag, bad))
@@ -720,12 +726,13 @@ class Sim:
             d, tok, feats = self.h_valid_packet(meta, big)
             valuekey_meta = 'value' in meta
             # payloads with the delimiter or a "value" key are judged on node-to-node calls only
-            owed = hp.owed and not free and not any(f.startswith(('delim', 'valuekey')) for f in feats)
+            # and a call that carries hostile meta keys may be executed or dropped: only its effect on the attributes is judged
+            owed = hp.owed and not meta and not any(f.startswith(('delim', 'valuekey')) for f in feats)
             if free:
                 hp.owed = hp.owed and not any(k in CAUSE_META for k in meta)
             if valuekey_meta:
                 feats.add('valuekey:call')
-            self.h_register(d, tok, feats, owed)
+            self.h_register(d, tok, feats, owed).meta = dict(meta)
             data = json.dumps(d, ensure_ascii=not raw_utf8).encode('utf-8') + DELIMITER
             ctx.stat('hostile:meta' if kind == 3 else 'hostile:valid')
             ctx.state(('hostile', 'meta' if kind == 3 else 'valid', bool(big), raw_utf8))
